@@ -46,17 +46,43 @@ def local_target_ok(te, v, reads, h, m):
 
 def build_create_schedule(path, mod, case, run):
     from shadow import loader
+    from shadow.values import SymChoice
+    from harness import apiops as A
 
     sched = loader.load("schedule")
-    start, sh, sm = sym_hhmm(path, "start")
+    run.a["clock_ok"] = True
+    run.a["days_dup"] = False
+    if "free_start" in case:
+        from harness.timeprops import _free_text, valid_hhmm_stripped
+
+        start = _free_text(path, case["free_start"])
+        run.a["clock_ok"] = valid_hhmm_stripped(start.items)
+        run.a["clock_exact"] = valid_hhmm_stripped(start.items, strip=False)
+        sh = sm = 0
+    else:
+        start, sh, sm = sym_hhmm(path, "start")
     end, eh, em = sym_hhmm(path, "end")
-    days, mask, guards = sym_dayset(path, sched)
+    if "days_seq" in case:
+        members = [sched.Days[n] for n in DAY_NAMES]
+        idxs = [A.fresh_int(path, "dayel%d" % k, 0, 6) for k in range(case["days_seq"])]
+        days = [SymChoice.mk(i, members) for i in idxs]
+        n = len(idxs)
+        run.a["days_dup"] = b_or(*[i_eq(idxs[a], idxs[b]) for a in range(n) for b in range(a + 1, n)])
+        mask = 0
+        for k in range(7):
+            mask = mask + i_ite(b_or(*[i_eq(i, k) for i in idxs]), 1 << (k + 1), 0)
+        guards = None
+    else:
+        days, mask, guards = sym_dayset(path, sched)
     run.a["mask"] = mask
     run.extra.update(start=(sh, sm), end=(eh, em), guards=guards)
 
     def jargs(m):
-        ds = [{"enum": "Days." + n} for n, g in zip(DAY_NAMES, guards) if C.ev_bool(m, g)]
-        return [C.ev_seq(m, start), C.ev_seq(m, end), {"set": ds}]
+        if guards is None:
+            ds = [{"enum": "Days." + DAY_NAMES[C.ev_int(m, i)]} for i in idxs]
+        else:
+            ds = {"set": [{"enum": "Days." + n} for n, g in zip(DAY_NAMES, guards) if C.ev_bool(m, g)]}
+        return [C.ev_seq(m, start), C.ev_seq(m, end), ds]
 
     run.json_args = jargs
     return lambda api: api.create_schedule(start, end, days)
